@@ -1,10 +1,6 @@
-(** Preservation of the upgrade invariant, label group E (see Eio/UpgradeInv.v). *)
+(** Preservation of the upgrade invariant (Eio/UpgradeInv.v) by label Cut. *)
 From SioV Require Import Base.GoSem Base.Conc Eio.Upgrade Eio.UpgradeInv.
 From Coq Require Import Lia.
 
-Lemma inv_Stall n st st' : inv n st -> step Stall st = Some st' -> inv n st'.
-Proof. intros I H. label_case. Qed.
-
 Lemma inv_Cut n st st' : inv n st -> step Cut st = Some st' -> inv n st'.
 Proof. intros I H. label_case. Qed.
-
